@@ -182,11 +182,23 @@ func genClasses(r *RNG, n int, prefix string) []*GClass {
 			}
 			ks := Pick(r, [][2]string{{"mode", "mode2"}, {"size10", "size"}, {"pin", "pin2"}})
 			c.Methods = append(c.Methods, &GMethod{Name: "kw2", Params: []GParam{{Types: []string{t1}, Key: ks[0]}, {Types: []string{t2}, Key: ks[1]}}, Ret: []string{Pick(r, gScalarTypes)}})
-			// and one method declared twice, first without parameters, then with
-			// one: `x.ov0 v` without parentheses has an argument
+			// one method whose parameter is a union of three classes: a union
+			// argument may be a strict subset of it
+			u3 := dedupKeep([]string{t1, t2, Pick(r, gScalarTypes), Pick(r, gScalarTypes)})
+			c.Methods = append(c.Methods, &GMethod{Name: "un3", Params: []GParam{{Types: u3}}, Ret: []string{t1}})
+		}
+		if i <= 1 {
+			// one method declared twice, first without parameters, then with one
+			// (`x.ov0 v` without parentheses has an argument); the first two
+			// classes both have it, so a union of them answers it as well
+			ta := Pick(r, gScalarTypes)
+			tb := Pick(r, gScalarTypes)
+			for tb == ta {
+				tb = Pick(r, gScalarTypes)
+			}
 			c.Methods = append(c.Methods,
-				&GMethod{Name: "ov0", Ret: []string{t1}},
-				&GMethod{Name: "ov0", Params: []GParam{{Types: []string{Pick(r, gScalarTypes)}}}, Ret: []string{t2}})
+				&GMethod{Name: "ov0", Ret: []string{ta}},
+				&GMethod{Name: "ov0", Params: []GParam{{Types: []string{Pick(r, gScalarTypes)}}}, Ret: []string{tb}})
 		}
 		out = append(out, c)
 	}
